@@ -43,6 +43,22 @@ def hom(v):
     return np.append(np.array([float(x) for x in v]), 1.0)
 
 
+ES = [1.0, 1.0]  # factors of the homogeneous representatives of the two end points of the segments built by SEG (set per case)
+ES_VALUES = (1.0, -1.0, 2.0, -0.5)
+
+
+def set_endpoint_scales(c):
+    es = c.get("es", [0, 0])
+    if len(es) != 2 or any(not isinstance(k, int) or not 0 <= k < len(ES_VALUES) for k in es):
+        raise Skip("malformed")
+    ES[0], ES[1] = ES_VALUES[es[0]], ES_VALUES[es[1]]
+
+
+def SEG(p, q):
+    """segment pq with scrambled (also negative) representatives of its end points"""
+    return Segment(Point(hom(p) * ES[0]), Point(hom(q) * ES[1]))
+
+
 def line_seg_2d(p, d, a, b):
     """line p + t d (t in R) vs closed segment ab, exact: ('none',) | ('point', q) | ('overlap',)"""
     e = [b[0] - a[0], b[1] - a[1]]
@@ -79,7 +95,8 @@ def seg_case(draw, tier="quick"):
     what = draw(st.sampled_from(["seg_seg2", "seg_line2", "seg_seg3", "seg_plane3", "seg_seg2_coll"]))
     return {"what": what, "v": [draw(C.ints(5)) for _ in range(12)], "mode": draw(st.sampled_from(["generic", "generic", "touch_endpoint", "collinear", "parallel", "T"])),
             "frame": [draw(C.ints(3)) for _ in range(9)], "t": draw(st.integers(-2, 4)), "skew": draw(st.booleans()),
-            "derive": draw(st.sampled_from(Z.DERIVATIONS)), "move": [draw(st.integers(-4, 4)) for _ in range(3)]}
+            "derive": draw(st.sampled_from(Z.DERIVATIONS)), "move": [draw(st.integers(-4, 4)) for _ in range(3)],
+            "es": [draw(st.sampled_from([0, 0, 1, 2, 3])), draw(st.sampled_from([0, 0, 1, 2, 3]))]}
 
 
 def seg_pair(c):
@@ -106,17 +123,18 @@ def seg_pair(c):
 
 
 def run_seg(c):
+    set_endpoint_scales(c)
     what = c["what"]
     ck = Checker()
     a, b, cc, d = seg_pair(c)
     mode = c["mode"]
     if what in ("seg_seg2", "seg_seg2_coll"):
         res = X.seg_seg_intersection(a, b, cc, d)
-        s1, s2 = Segment(P(a), P(b)), Segment(P(cc), P(d))
+        s1, s2 = SEG(a, b), SEG(cc, d)
         if what == "seg_seg2" and c.get("derive"):
             # the first operand is obtained by moving a segment that has already been used
             s1, f = call(f"{what}:derive", Z.derive_moved, lambda rows: Segment(Point(rows[0]), Point(rows[1])), np.stack([hom(a), hom(b)]), c["derive"], c.get("move", [1, 2, 3]),
-                         lambda rows0: Point(rows0[0]), lambda s0: s0.intersect(Segment(P(cc), P(d))))
+                         lambda rows0: Point(rows0[0]), lambda s0: s0.intersect(SEG(cc, d)))
             if f:
                 return [f]
         if what == "seg_seg2_coll":
@@ -153,7 +171,7 @@ def run_seg(c):
     if what == "seg_line2":
         dd = [d[0] - cc[0], d[1] - cc[1]]
         res = line_seg_2d(cc, dd, a, b)
-        s1 = Segment(P(a), P(b))
+        s1 = SEG(a, b)
         L = Line(P(cc), P(d))
         r, f = call(f"seg_line2:{mode}", s1.intersect, L)
         if f:
@@ -191,9 +209,9 @@ def run_seg(c):
         return ck.result()
     if what == "seg_seg3":
         nrm = np.cross(u, w)
-        s1 = Segment(P(e3(a)), P(e3(b)))
+        s1 = SEG(e3(a), e3(b))
         if c["skew"]:
-            s2 = Segment(P(e3(cc) + nrm), P(e3(d) + 2 * nrm))
+            s2 = SEG(e3(cc) + nrm, e3(d) + 2 * nrm)
             # exact: are the lifted segments still coplanar with s1?  lines are skew unless the lifted configuration degenerates
             M = np.stack([np.append(e3(a), 1), np.append(e3(b), 1), np.append(e3(cc) + nrm, 1), np.append(e3(d) + 2 * nrm, 1)])
             if abs(np.linalg.det(M)) < 0.5:
@@ -203,7 +221,7 @@ def run_seg(c):
                 return [f]
             compare(ck, list(r), [], "seg_seg3:skew:miss")
             return ck.result()
-        s2 = Segment(P(e3(cc)), P(e3(d)))
+        s2 = SEG(e3(cc), e3(d))
         res = X.seg_seg_intersection(a, b, cc, d)
         r, f = call(f"seg_seg3:{mode}", s1.intersect, s2)
         if f:
@@ -218,7 +236,7 @@ def run_seg(c):
         nrm = np.cross(u, w)
         p1, p2, p3 = e3(cc), e3(d), e3(cc) + nrm
         E = Plane(P(p1), P(p2), P(p3))
-        s1 = Segment(P(e3(a)), P(e3(b)))
+        s1 = SEG(e3(a), e3(b))
         dd = [d[0] - cc[0], d[1] - cc[1]]
         res = line_seg_2d(cc, dd, a, b)
         r, f = call(f"seg_plane3:{mode}", s1.intersect, E)
@@ -240,10 +258,12 @@ def poly_case(draw, tier="quick"):
     return {"idx": idx, "radii": [draw(st.integers(1, 3)) for _ in range(n)], "off": [draw(C.ints(4)), draw(C.ints(4))], "dim": draw(st.sampled_from([2, 2, 3])),
             "frame": [draw(C.ints(3)) for _ in range(9)], "other": draw(st.sampled_from(["line", "segment"])), "mode": draw(st.sampled_from(["generic", "vertex", "two_vertices", "along_edge", "miss", "inplane", "parallel"])),
             "q": [draw(st.integers(-8, 16)) for _ in range(4)], "k": draw(st.integers(0, 5)), "h": draw(st.sampled_from([1, 2, -1, 3])),
-            "derive": draw(st.sampled_from(Z.DERIVATIONS)), "move": [draw(st.integers(-4, 4)) for _ in range(3)]}
+            "derive": draw(st.sampled_from(Z.DERIVATIONS)), "move": [draw(st.integers(-4, 4)) for _ in range(3)],
+            "es": [draw(st.sampled_from([0, 0, 1, 2, 3])), draw(st.sampled_from([0, 0, 1, 2, 3]))]}
 
 
 def run_poly(c):
+    set_endpoint_scales(c)
     pts = [[Fraction(DIRS[i][0] * r + c["off"][0]), Fraction(DIRS[i][1] * r + c["off"][1])] for i, r in zip(c["idx"], c["radii"])]
     if not X.is_simple_polygon(pts):
         raise Skip("not simple")
@@ -280,7 +300,7 @@ def run_poly(c):
             elif res[0] == "point":
                 exp.append(res[1])
         exp = dedupe(exp)
-        other = Line(P(A), P(B)) if c["other"] == "line" else Segment(P(A), P(B))
+        other = Line(P(A), P(B)) if c["other"] == "line" else SEG(A, B)
         site = f"polygon2:{c['other']}:{mode}"
         r, f = call(site, poly.intersect, other)
         if f:
@@ -327,7 +347,7 @@ def run_poly(c):
         X2 = e3(A) - h * nrm - (e3(B) - e3(A))
         inside = X.point_in_polygon(pts, A)
         exp = [e3(A)] if inside else []
-    other = Line(P(X1), P(X2)) if c["other"] == "line" else Segment(P(X1), P(X2))
+    other = Line(P(X1), P(X2)) if c["other"] == "line" else SEG(X1, X2)
     r, f = call(site, poly.intersect, other)
     if f:
         return [f]
@@ -358,10 +378,12 @@ def cub_case(draw, tier="quick"):
     return {"v": [draw(C.ints(4)) for _ in range(9)], "p": [draw(st.integers(-2, 4)) for _ in range(3)], "q": [draw(st.integers(-2, 4)) for _ in range(3)],
             "mode": draw(st.sampled_from(["generic", "generic", "through_vertices", "through_edge_midpoints", "parallel_to_face", "in_face_plane", "miss"])),
             "other": draw(st.sampled_from(["line", "segment"])), "coll": draw(st.sampled_from([False, False, True])),
-            "derive": draw(st.sampled_from(Z.DERIVATIONS)), "move": [draw(st.integers(-4, 4)) for _ in range(3)]}
+            "derive": draw(st.sampled_from(Z.DERIVATIONS)), "move": [draw(st.integers(-4, 4)) for _ in range(3)],
+            "es": [draw(st.sampled_from([0, 0, 1, 2, 3])), draw(st.sampled_from([0, 0, 1, 2, 3]))]}
 
 
 def run_cub(c):
+    set_endpoint_scales(c)
     v = c["v"]
     u = np.array(v[0:3], float)
     w0 = np.array(v[3:6], float)
@@ -413,7 +435,7 @@ def run_cub(c):
             tmax = t2 if tmax is None else min(tmax, t2)
     world = lambda b: o + float(b[0]) * u + float(b[1]) * w + float(b[2]) * x  # noqa: E731
     X1, X2 = world(p), world(q)
-    other = Line(P(X1), P(X2)) if c["other"] == "line" else Segment(P(X1), P(X2))
+    other = Line(P(X1), P(X2)) if c["other"] == "line" else SEG(X1, X2)
     site = f"cuboid:{c['other']}:{mode}"
     r, f = call(site, cub.intersect, other)
     if f:
